@@ -179,6 +179,14 @@ def rule_wr_fin(cx, rep, port):
             rep.violated(_key(c, 'finish'), fins[0].ast, 'a record can be written downstream after subwriter.finish()')
         else:
             rep.holds(_key(c, 'finish'), fins[0].ast, 'exactly one subwriter.finish() on every normal path, after all writes')
+        # a failing finishing stage (incomparable sort keys, the sink refusing a record by raising) must not finish the sink: the
+        # user's writer would flush/close a truncated result as if the run had succeeded
+        g2 = cfgmod.CFG(fd)
+        fins2 = [n for n in g2.nodes if is_fin(n)]
+        own_exc = lambda a, b, lab: not (lab in ('exc', 'raise') and any(a is f for f in fins2))  # noqa: E731
+        rng2 = g2.count_range(is_fin, exits=[g2.raise_exit], edge_ok=own_exc)
+        if rng2 is not None:
+            rep.decide(rng2[1] == 0, _key(c, 'finish') + ' on failure', fins2[0].ast if fins2 else fd, 'no path that leaves finish() with an exception has called subwriter.finish()', 'subwriter.finish() is also called on a path that leaves finish() with an exception (try/finally): after a failed run the user\'s writer is finished as if the output were complete')
 
 
 def rule_wr_top(cx, rep, port):
@@ -446,6 +454,11 @@ def rule_wr_sort(cx, rep, port):
     apps = [n for n in walk_no_nested(wr) if isinstance(n, ast.Call) and isinstance(n.func, ast.Attribute) and n.func.attr in ('append', 'push') and dotted(n.func.value) == 'self.unsorted_entries']
     bad_ins = [n for n in walk_no_nested(wr) if isinstance(n, ast.Call) and isinstance(n.func, ast.Attribute) and n.func.attr in ('insert', 'unshift')]
     rep.decide(len(apps) == 1 and not bad_ins, _key(c, 'write'), wr, 'entries are appended in arrival order', 'entries are not kept in arrival order')
+    if len(apps) == 1:
+        # every arrival is buffered exactly once: dropping (or doubling) records before the sort changes which occurrence survives DISTINCT
+        g = cfgmod.CFG(wr)
+        rng = g.count_range(lambda n: cfgmod.node_contains(n, lambda x: x is apps[0]), edge_ok=NORMAL)
+        rep.decide(rng == (1, 1), _key(c, 'write') + ' buffers every record', apps[0], 'every path through write() buffers the record exactly once', 'some path through the ORDER BY writer\'s write() buffers the record {} times: records are dropped or doubled before the sort, so DISTINCT/TOP downstream no longer see the sorted sequence of all records'.format(rng))
     # the sort
     sort_calls = []
     for n in walk_no_nested(fin):
@@ -501,6 +514,22 @@ def rule_wr_sort(cx, rep, port):
             rep.violated(_key(c, 'finish') + ' sort', sc, 'Array.sort() without comparator sorts entries by their string image')
             return
         cmpf = sc.args[0]
+        if isinstance(cmpf, ast.IfExp):
+            # comparator chosen by a condition: each alternative is examined; an inverted one is the descending-comparator defect
+            for alt in (cmpf.body, cmpf.orelse):
+                afd = getattr(alt, 'js_function_ref', None)
+                body = alt.body if isinstance(alt, ast.Lambda) else afd
+                if body is None:
+                    continue
+                params = [a.arg for a in (alt.args.args if isinstance(alt, ast.Lambda) else afd.args.args)]
+                inner = [x for x in ast.walk(body) if isinstance(x, ast.Call) and dotted(x.func) and p.func(mod, dotted(x.func), required=False) is not None]
+                scaled = [x for x in ast.walk(body) if isinstance(x, (ast.BinOp, ast.UnaryOp)) and any(i is y for i in inner for y in ast.walk(x))]
+                swapped = [x for x in inner if len(x.args) == 2 and [dotted(a) for a in x.args] == list(reversed(params))]
+                if scaled or swapped:
+                    rep.violated(_key(c, 'finish') + ' sort', sc, 'DESC is implemented by a descending comparator (`{}`): entries with equal keys stay in emission order instead of being reversed, so DESC is not the exact reverse of ASC'.format(node_text(alt, 80)))
+                    return
+            rep.undecided(_key(c, 'finish') + ' sort', sc, 'comparator chosen by a condition (`{}`) not recognised'.format(node_text(cmpf, 80)))
+            return
         cname = dotted(cmpf)
         cfd = p.func(mod, cname, required=False) if cname else None
         if cfd is None and getattr(cmpf, 'js_function_ref', None) is not None:
